@@ -103,7 +103,8 @@ def run(c):
     # "only selects implementations": the same functional events under feature-selected builds, one configuration-free specification
     drivers = [("chacha-stream", ["c01"], "TraceC01", "stateless"), ("blake", ["digests", "--family", "blake"], "TraceBlake", "stateless"),
                ("groestl", ["digests", "--family", "groestl"], "TraceGroestl", "stateless"),
-               ("threefish", ["tf"], "TraceTF", "stateless", {"MODE": "enc"})]
+               ("threefish", ["tf"], "TraceTF", "stateless", {"MODE": "enc"}),
+               ("threefish-inverse", ["tf"], "TraceTF", "stateless", {"MODE": "inv"})]
     fcfgs = [("std-rel", 0), ("nosimd-rel", 0), ("nostd-sse2", 0), ("nounroll-rel", 0)] + ([("nostd-avx2", 0), ("nosimd-dbg", 0), ("nostd-aes", 0)] if c.thorough else [])
     total, _ = c03.cross_validate(c, fcfgs, drivers, label="C20")
     c.cov["functional_events_compared"] = total
